@@ -43,7 +43,7 @@ def plain_problems(j, path="$"):
                 out.append("%s: string is not valid Unicode text (lone surrogate)" % path)
     elif isinstance(j, int):
         if not (-MAXI <= j <= MAXI):
-            out.append("%s: integer %d beyond +-2^53" % (path, j))
+            out.append("%s: integer %s beyond +-2^53" % (path, j if abs(j) < 1 << 200 else hex(j)[:40] + "..."))
     elif isinstance(j, float):
         if math.isnan(j) or math.isinf(j):
             out.append("%s: non-finite float %r" % (path, j))
